@@ -14,6 +14,7 @@ import GluonModel.Lemmas.MimeScan
 import GluonModel.Lemmas.ParamList
 import GluonModel.Lemmas.Structure
 import GluonModel.Lemmas.MimeTree
+import GluonModel.Lemmas.MimeStructTree
 
 namespace Gluon.C12
 
@@ -175,24 +176,99 @@ theorem scan_of_rendered_parts (boundary : Bytes) (ps : List Bytes)
     end offsets are those of its rendering (so the reported size of a part is the length of its
     body, and its line count that of its body bytes), a multipart has exactly its parts as
     children, and a message/rfc822 node has the children of the embedded message (the hoisting
-    that `Section.load` does — the shape `imap.Structure` then mis-reports, see the oracle class
-    `rfc822-multipart-flattened`). -/
+    that `Section.load` does — which `imap.Structure` then takes for a multipart, see
+    `structure_flattens_embedded_multipart`). -/
 theorem sections_of_built_message (env : HdrEnv) (t : MTree) (hg : t.Good env) :
     parseWalk env t.render = .ok (t.expect 0) :=
   parseWalk_built env t hg
 
-/-! ### Non-vacuity -/
+/-- **For a well-built message BODY / BODYSTRUCTURE are the MIME tree it was built from — unless
+    an embedded message is a multipart.**  For every `Good` MIME tree `t` whose message/rfc822 nodes
+    are exactly the ones the media type parser calls "message/rfc822" (`DetOK`) and in which no
+    message/rfc822 node holds a multipart message with parts (named hypothesis `NoEmbMulti`),
+    `imap.Structure` on the rendered bytes makes exactly the writer calls `t.calls det`
+    (Spec/MimeStructure.lean), which are read off the tree alone: every node reports the type,
+    subtype, parameters and other fields of *its own* header block, size = length of its body, line
+    count = lines of its body; a multipart lists exactly its parts followed by its subtype; a
+    message/rfc822 part is a single part with its size, the embedded message's envelope, the
+    embedded message's structure and its line count.  Under `QuoteOK` the BODYSTRUCTURE and BODY
+    texts therefore read back as exactly that tree of items.
+    The hypothesis `NoEmbMulti` cannot be dropped: `structure_flattens_embedded_multipart`. -/
+theorem structure_of_built_message_partial (env : HdrEnv) (det : HdrDetail) (q : Bytes → Bytes)
+    (hq : QuoteOK q) (t : MTree) (hg : t.Good env) (hd : t.DetOK det) (hn : t.NoEmbMulti) :
+    ∃ b s, structureTexts env det q t.render = .ok (b, s) ∧
+      parseSexp s = some [.list (Call.shapeList q false (t.calls det))] ∧
+      parseSexp b = some [.list (Call.shapeList q true (t.calls det))] := by
+  refine ⟨_, _, structureTexts_built env det q t hg hd hn, ?_, ?_⟩
+  · rw [paramlist_wellformed q hq]
+    simp [Call.shapeList, Call.shape, vis]
+  · rw [paramlist_wellformed q hq]
+    simp [Call.shapeList, Call.shape, vis]
 
-/-- header bytes → what the abstract header machinery answers, for the example below -/
+/-- header bytes → what the abstract header machinery answers, for the examples below -/
 def exampleEnv : HdrEnv := fun h =>
   if h == [77, 13, 10, 13, 10] then { ok := true, ct := .multipart [98] }          -- "M␍␊␍␊"
   else if h == [82, 13, 10, 13, 10] then { ok := true, ct := .rfc822 }              -- "R␍␊␍␊"
   else { ok := true, ct := .other }
 
+/-- the media type parser's answers for the examples: "R␍␊␍␊" is message/rfc822 -/
+def exampleDet : HdrDetail := fun h =>
+  if h == [82, 13, 10, 13, 10] then { mimeType := MESSAGE, sub := RFC822 } else {}
+
+/-- message/rfc822( multipart( leaf "A" ) ): an embedded *multipart* message -/
+def exampleTree2 : MTree :=
+  .msg [82, 13, 10, 13, 10] (.multi [77, 13, 10, 13, 10] [98] [.leaf [13, 10] [65]])
+
+/-- **The full statement (without `NoEmbMulti`) is false of the current code** — the well-built
+    message `R␍␊␍␊ M␍␊␍␊ --b␍␊ ␍␊A ␍␊--b--␍␊` (a message/rfc822 whose embedded message is a
+    multipart with one part; `Good` and `DetOK` hold) gets the BODYSTRUCTURE
+    `((NIL NIL () NIL NIL NIL 1 NIL NIL NIL NIL) "rfc822" () NIL NIL NIL)`: a *multipart* with
+    subtype "rfc822" — no size, no envelope, no embedded body structure, no line count — because
+    `Section.load` hoists the embedded message's parts and `structure()` branches on
+    `len(children) == 0`.  On the real code: oracle class `rfc822-multipart-flattened`,
+    corpus/C12/rfc822-multipart-flattened.replay. -/
+theorem structure_flattens_embedded_multipart :
+    (exampleTree2.Good exampleEnv ∧ exampleTree2.DetOK exampleDet) ∧
+    ∃ b s, structureTexts exampleEnv exampleDet exampleQuote exampleTree2.render = .ok (b, s) ∧
+      -- `((NIL NIL () NIL NIL NIL 1 NIL NIL NIL NIL) "rfc822" () NIL NIL NIL)`
+      s = [40, 40, 78, 73, 76, 32, 78, 73, 76, 32, 40, 41, 32, 78, 73, 76, 32, 78, 73, 76, 32, 78, 73, 76, 32,
+           49, 32, 78, 73, 76, 32, 78, 73, 76, 32, 78, 73, 76, 32, 78, 73, 76, 41, 32, 34, 114, 102, 99, 56,
+           50, 50, 34, 32, 40, 41, 32, 78, 73, 76, 32, 78, 73, 76, 32, 78, 73, 76, 41] ∧
+      parseSexp s = some [.list [
+        .list [.nil, .nil, .list [], .nil, .nil, .nil, .num [49], .nil, .nil, .nil, .nil],
+        .str RFC822, .list [], .nil, .nil, .nil]] := by
+  constructor
+  · simp only [exampleTree2, MTree.Good, MTree.GoodList, MTree.DetOK, MTree.DetOKList, HdrAt, Fresh, and_true]
+    exact ⟨⟨⟨rfl, rfl⟩, by decide, rfl, ⟨rfl, rfl⟩, by decide, rfl, ⟨⟨rfl, rfl⟩, rfl⟩, rfl⟩, rfl, rfl, rfl⟩
+  · obtain ⟨b, s, h⟩ := structure_total exampleEnv exampleDet exampleQuote exampleTree2.render
+    have key : (match structureTexts exampleEnv exampleDet exampleQuote exampleTree2.render with
+        | .ok (_, s) => s
+        | .error _ => []) =
+        [40, 40, 78, 73, 76, 32, 78, 73, 76, 32, 40, 41, 32, 78, 73, 76, 32, 78, 73, 76, 32, 78, 73, 76, 32,
+           49, 32, 78, 73, 76, 32, 78, 73, 76, 32, 78, 73, 76, 32, 78, 73, 76, 41, 32, 34, 114, 102, 99, 56,
+           50, 50, 34, 32, 40, 41, 32, 78, 73, 76, 32, 78, 73, 76, 32, 78, 73, 76, 41] := by
+      decide +kernel
+    rw [h] at key
+    simp only at key
+    refine ⟨b, s, h, key, ?_⟩
+    rw [key]
+    rfl
+
+/-! ### Non-vacuity -/
+
 /-- multipart( leaf "A", message/rfc822( leaf "x" ) ) -/
 def exampleTree : MTree :=
   .multi [77, 13, 10, 13, 10] [98]
     [.leaf [13, 10] [65], .msg [82, 13, 10, 13, 10] (.leaf [84, 13, 10, 13, 10] [120])]
+
+/-- the hypotheses of `structure_of_built_message_partial` are satisfiable by a multipart holding
+    an embedded message -/
+example : exampleTree.DetOK exampleDet := by
+  simp only [exampleTree, MTree.DetOK, MTree.DetOKList, and_true]
+  exact ⟨rfl, rfl, rfl, rfl⟩
+
+example : exampleTree.NoEmbMulti := by
+  simp [exampleTree, MTree.NoEmbMulti, MTree.NoEmbMultiList, MTree.hasKids]
 
 /-- the hypotheses of `sections_of_built_message` are satisfiable by a tree with a multipart and an
     embedded message -/
